@@ -35,7 +35,7 @@ import core  # noqa: F401
 import isoutil
 import rdflib.plugins.sparql as SPARQL_MOD
 from rdflib import BNode, ConjunctiveGraph, Dataset, Graph, Literal, URIRef, Variable
-from rdflib.graph import DATASET_DEFAULT_GRAPH_ID
+from rdflib.plugins.sparql import prepareUpdate
 
 warnings.filterwarnings("ignore", category=DeprecationWarning)
 
@@ -348,9 +348,17 @@ def spec_request(case):
     eff_union = case["union"] and case["api"] in ("cg", "cgi", "dsu")
     failed, info = False, {}
     before = {(s, p, o, g) for g, ts in G.items() for (s, p, o) in ts}
+    gone = set()          # named graphs removed by DROP / MOVE and not written to since: must not be listed
     for op in case["ops"]:
         try:
+            names_before = [g for g in G if g != 0]
             G = spec_op(op, G, eff_union, case["api"] == "graph", lambda: next(counter), info)
+            if op["k"] == "drop":
+                t = op["t"]
+                gone |= set(names_before) if t in ("NAMED", "ALL") else {t} if t != "DEFAULT" else set()
+            elif op["k"] == "move" and op["src"] != op["dst"] and op["src"] != 0:
+                gone.add(op["src"])
+            gone = {g for g in gone if not G.get(g)}
         except SpecError:
             info["must_fail" + ("_silent" if op.get("silent") else "")] = 1
             if not op.get("silent"):
@@ -358,6 +366,7 @@ def spec_request(case):
                 break
     quads = {(s, p, o, g) for g, ts in G.items() for (s, p, o) in ts}
     info["changed"] = int(quads != before)
+    info["gone"] = sorted(gone)
     return quads, failed, info
 
 
@@ -367,7 +376,8 @@ def spec_request(case):
 def canon(quads):
     """quads: tuples of ints (vocabulary) or ('f', label) for nodes minted by the update.
     Returns the sorted list of int quads with minted nodes numbered 1000… canonically:
-    exact per connected component (all orders of the component's nodes tried), components sorted."""
+    exact per connected component (colour refinement, then every order respecting the colour classes is
+    tried and the least form kept), components sorted."""
     ground = sorted(q for q in quads if not any(isinstance(x, tuple) for x in q))
     rest = [q for q in quads if any(isinstance(x, tuple) for x in q)]
     parent = {}
@@ -389,10 +399,32 @@ def canon(quads):
     forms = []
     for qs in comps.values():
         nodes = sorted({x for q in qs for x in q if isinstance(x, tuple)})
+        # colour refinement (label-independent), then all orders that respect the colour classes
+        col = {nd: 0 for nd in nodes}
+        for _ in range(len(nodes) + 1):
+            sig = {nd: sorted(tuple((0, col[x]) if isinstance(x, tuple) and x != nd else (1, 0) if x == nd else (2, x)
+                                    for x in q) for q in qs if nd in q) for nd in nodes}
+            ranks = {sg: i for i, sg in enumerate(sorted({repr((col[nd], sig[nd])) for nd in nodes}))}
+            new = {nd: ranks[repr((col[nd], sig[nd]))] for nd in nodes}
+            if new == col:
+                break
+            col = new
+        classes = {}
+        for nd in nodes:
+            classes.setdefault(col[nd], []).append(nd)
+        groups = [classes[c] for c in sorted(classes)]
+        budget = 1
+        for g_ in groups:
+            for k in range(2, len(g_) + 1):
+                budget *= k
+        if budget > 50000:                # never seen; a deterministic but label-dependent fallback
+            orders = [[nd for g_ in groups for nd in g_]]
+        else:
+            orders = ([nd for part in combo for nd in part]
+                      for combo in itertools.product(*[itertools.permutations(g_) for g_ in groups]))
         best = None
-        perms = itertools.permutations(range(len(nodes))) if len(nodes) <= 6 else [tuple(range(len(nodes)))]
-        for perm in perms:
-            m = {nd: -1 - perm[i] for i, nd in enumerate(nodes)}      # negative = local index
+        for order in orders:
+            m = {nd: -1 - i for i, nd in enumerate(order)}      # negative = local index
             form = sorted(tuple(m.get(x, x) if isinstance(x, tuple) else x for x in q) for q in qs)
             if best is None or form < best:
                 best = form
@@ -473,11 +505,25 @@ def run_impl(case):
     try:
         top, dflt = _build(case)
         try:
-            top.update(text)
+            if case.get("prep"):      # the same request as a prepared Update object (other entry of the glue)
+                top.update(prepareUpdate(text))
+            else:
+                top.update(text)
             err = "ok"
         except Exception as e:  # noqa: BLE001
             err = "error"
             errtext = f"{type(e).__name__}: {str(e)[:120]}"
+        # law `request_in_order`, evaluated on the implementation itself: the operations sent one at a time
+        # (stopping at the first that raises) must leave the same dataset as the single request
+        stepwise = None
+        if len(case["ops"]) > 1:
+            top2, dflt2 = _build(case)
+            for op in case["ops"]:
+                try:
+                    top2.update(op_text(op))
+                except Exception:  # noqa: BLE001
+                    break
+            stepwise = canon(set(_read(top2, dflt2, api)[0]))
     finally:
         SPARQL_MOD.SPARQL_DEFAULT_GRAPH_UNION, SPARQL_MOD.SPARQL_LOAD_GRAPHS = old_u, old_l
     raw, names = _read(top, dflt, api)
@@ -488,13 +534,6 @@ def run_impl(case):
 
     # ---- the property, decided on the implementation's behaviour
     viol = []
-    want, failed, info = spec_request(case)
-    nsol, changed = info.get("sols", 0), info["changed"]
-    if failed != (err == "error"):
-        viol.append(f"outcome: request {'must fail' if failed else 'must succeed'} but the implementation "
-                    f"{'raised ' + errtext if err == 'error' else 'returned normally'}")
-    if len(raw) != len(set(raw)):
-        viol.append("dup: dataset yields a quad twice")
 
     def toterm(x, skolem):
         if isinstance(x, tuple):
@@ -505,9 +544,30 @@ def run_impl(case):
             return URIRef(f"{E}sk{x}")
         return x
 
-    A = {tuple(toterm(x, True) for x in q) for q in set(raw)}
-    B = {tuple(toterm(x, True) for x in q) for q in want}
-    if not isoutil.iso(A, B):
+    want, failed, info = spec_request(case)
+    nsol, changed = info.get("sols", 0), info["changed"]
+    if failed != (err == "error"):
+        viol.append(f"outcome: request {'must fail' if failed else 'must succeed'} but the implementation "
+                    f"{'raised ' + errtext if err == 'error' else 'returned normally'}")
+    if len(raw) != len(set(raw)):
+        viol.append("dup: dataset yields a quad twice")
+    if stepwise is not None and stepwise != quads and not isoutil.iso(
+            {tuple(toterm(x, True) for x in q) for q in stepwise}, {tuple(toterm(x, True) for x in q) for q in quads}):
+        viol.append(f"order: request\n{text}\nleft {show_quads(quads)} but its operations sent one at a time left "
+                    f"{show_quads(stepwise)}")
+    still = [g for g in info.pop("gone") if g in known]
+    if still and api != "graph":
+        viol.append(f"dropped: graphs {still} were removed by DROP / MOVE and not written to afterwards, "
+                    f"but the store still lists them (request {text!r})")
+
+    # equal canonical numberings exhibit a renaming of the minted nodes (sound); only when they differ is the
+    # exact decision procedure asked (complete), so that a violation never rests on the numbering heuristic
+    same = quads == canon_int(want)
+    if not same:
+        A = {tuple(toterm(x, True) for x in q) for q in set(raw)}
+        B = {tuple(toterm(x, True) for x in q) for q in want}
+        same = isoutil.iso(A, B)
+    if not same:
         ga = {q for q in set(raw) if not any(isinstance(x, tuple) for x in q)}
         gb = {q for q in want if not any(x >= 1000 for x in q)}
         extra, missing = sorted(ga - gb), sorted(gb - ga)
@@ -515,7 +575,7 @@ def run_impl(case):
         viol.append(f"{tag}: request\n{text}\non {sorted(map(tuple, case['init']))} (api {api}, union {case['union']}) "
                     f"left quads {show_quads(quads)} but the Update semantics give {show_quads(canon_int(want))}"
                     f" (extra {extra}, missing {missing})")
-    stats = {"ops": len(case["ops"]), "api_" + api: 1, "union_" + str(bool(case["union"])): 1, "err_" + err: 1,
+    stats = {"ops": len(case["ops"]), "prepared_update_object": int(bool(case.get("prep"))), "api_" + api: 1, "union_" + str(bool(case["union"])): 1, "err_" + err: 1,
              "minted": len({x for q in quads for x in q if x >= 1000}), **info}
     for o in case["ops"]:
         stats["op_" + o["k"]] = stats.get("op_" + o["k"], 0) + 1
@@ -822,7 +882,7 @@ def _gen_case(rng, tier, i):
                 "filter": flt}
 
     ops = [gen_op() for _ in range(rng.choice([1, 1, 1, 2, 2, 3, 4]))]
-    return {"api": api, "union": union, "init": init, "reg": reg, "ops": ops}
+    return {"api": api, "union": union, "init": init, "reg": reg, "ops": ops, "prep": rng.random() < 0.25}
 
 
 def _group(quads):
@@ -864,6 +924,37 @@ def shrink(case):
         yield {**case, "api": "ds"}
     if case["union"]:
         yield {**case, "union": False}
+    if case.get("prep"):
+        yield {**case, "prep": False}
 
 
-MATCHERS = {}
+# ---- matchers of the (fixed) findings: shapes only; `fixed` witnesses are re-run first on every run and must pass
+
+
+def _one(case, kind):
+    return len(case["ops"]) == 1 and case["ops"][0]["k"] == kind
+
+
+def _state(result):
+    return any(v.startswith("state") for v in result["viol"])
+
+
+MATCHERS = {
+    "modify_interleaved": lambda c, r: _one(c, "modify") and c["ops"][0].get("del") is not None
+    and c["ops"][0].get("ins") is not None and _state(r),
+    "deletewhere_lazy": lambda c, r: _one(c, "deletewhere") and len(c["ops"][0]["q"]) >= 2 and _state(r),
+    "template_illegal": lambda c, r: _one(c, "modify") and any(v.startswith("illegal") for v in r["viol"]),
+    "default_write_target": lambda c, r: c["union"] and c["api"] != "graph" and len(c["ops"]) == 1 and bool(r["viol"]),
+    "insertdata_label": lambda c, r: _one(c, "insertdata") and _state(r)
+    and any(kind(x) in "bt" for q in c["ops"][0]["q"] for x in q[:3]),
+    "template_bnode_scope": lambda c, r: _one(c, "modify") and _state(r)
+    and len({q[3] for q in (c["ops"][0].get("ins") or []) if any(kind(x) in "bt" for x in q[:3])}) > 1,
+    "template_graph_unbound": lambda c, r: _one(c, "modify") and _state(r)
+    and any(kind(q[3]) == "v" for q in (c["ops"][0].get("ins") or [])),
+    "deletewhere_graphvar": lambda c, r: _one(c, "deletewhere") and _state(r)
+    and any(kind(q[3]) == "v" for q in c["ops"][0]["q"]),
+    "using_dataset": lambda c, r: _one(c, "modify") and _state(r)
+    and bool(c["ops"][0].get("using") or c["ops"][0].get("named")),
+    "plain_graph_drop": lambda c, r: c["api"] == "graph" and len(c["ops"]) == 1
+    and c["ops"][0]["k"] in ("clear", "drop") and bool(r["viol"]),
+}
